@@ -225,6 +225,10 @@ class StmtInferrer(ast.NodeVisitor):
     if types is not None:
       # TODO(mdan): Normalize by removing subtypes.
       anno.setanno(node, anno.Static.TYPES, tuple(types))
+    elif anno.hasanno(node, anno.Static.TYPES):
+      # An earlier visit, before the fixed point was reached, knew the type.
+      # It is unknown now; do not leave the outdated answer behind.
+      anno.delanno(node, anno.Static.TYPES)
     return types
 
   def _check_set(self, value):
